@@ -1172,7 +1172,10 @@ def report(ctx, rows, runner):
             again = evaluate([e], runner)[0]
             if again["verdict"] != v:
                 continue                      # not reproducible (e.g. a timeout under load): no alarm
-            e = shrink(e, runner, v)
+            # a shadow idiom is not shrunk: dropping the binder would leave a read of the global function of that
+            # name, which the reference interpreter (whose globals are its own builtins only) cannot judge
+            if not (set(re.findall(r"[A-Za-z_]+", row["src"])) & set(SHADOW_GLOBALS)):
+                e = shrink(e, runner, v)
             row = evaluate([e], runner)[0]
             if row["verdict"] != v:
                 row = again
@@ -1198,12 +1201,15 @@ def report(ctx, rows, runner):
     return bad
 
 
+SHADOW_GLOBALS = ["count", "max", "id", "words", "sum", "first", "min", "last"]
+
+
 def shadow_idioms():
     """scoped binders (catch variable, catch pattern names, lambda parameter with and without default, splat parameter,
     for variable, <<- pair, for-clause declaration, switch binding) named after GLOBAL functions and read only inside
     their scope, also from a closure that escapes it: the binder shadows the global, for evaluate and for the
     command line's static pass alike"""
-    G = ["count", "max", "id", "words", "sum", "first", "min", "last"]
+    G = SHADOW_GLOBALS
     out = []
     for k, g in enumerate(G):
         h = G[(k + 3) % len(G)]
